@@ -535,6 +535,10 @@ Qed.
 End RT.
 
 
+(* the pointer deserializers test for a readable byte (regenerated guard), on every kind of stream *)
+Lemma ptr_guard_eq : forall (sh : bool) s, ptr_guard (if sh then sptr_guard_kind else uptr_guard_kind) s = has_data s.
+Proof. intros. destruct sh; reflexivity. Qed.
+
 Lemma cond_data_nil : has_data (S0 []) = false.
 Proof. reflexivity. Qed.
 
@@ -1015,16 +1019,16 @@ Proof.
     subst n. rewrite <- (map_length (fun x => packed t (ssize t x) (encode t x)) l).
     apply arr_go_pieces. apply elems_pieces; auto.
   - (* null pointer *) split.
-    + intros _. reflexivity.
+    + intros _. cbn [decode encode]. rewrite ptr_guard_eq. reflexivity.
     + intros _ Hnn. cbn in Hnn. contradiction.
   - (* pointer *) cbn in Hok. destruct (IHt v Hok Hwf) as [A B].
     pose proof (size_exact t v Hok Hwf) as Hsz. split.
-    + intros Hld. cbn [is_ld wire] in Hld. specialize (A Hld). cbn [decode encode norm dflt].
+    + intros Hld. cbn [is_ld wire] in Hld. specialize (A Hld). cbn [decode encode norm dflt]. rewrite ptr_guard_eq.
       rewrite A. destruct (encode t v) as [|b r] eqn:E; unfold has_data, S0; cbn [win].
       * cbn [length] in Hsz. rewrite Hsz. reflexivity.
       * replace (ssize t v =? 0) with false. reflexivity.
         symmetry. apply Z.eqb_neq. rewrite Hsz. cbn [length]. lia.
-    + intros Hld Hnn post cur. cbn [is_ld wire] in Hld. cbn [nonnull] in Hnn. cbn [decode encode norm].
+    + intros Hld Hnn post cur. cbn [is_ld wire] in Hld. cbn [nonnull] in Hnn. cbn [decode encode norm]. rewrite ptr_guard_eq.
       pose proof (nld_nonempty t v Hld Hwf Hnn) as Hne. rewrite (B Hld Hnn).
       destruct (encode t v) as [|b r] eqn:E; [contradiction|]. unfold has_data, S0; cbn [win app].
       replace (ssize t v =? 0) with false. reflexivity.
@@ -1340,4 +1344,21 @@ Definition ex_hash_val : val :=
 Lemma wf_hash_example : wf ex_hash_ty ex_hash_val /\ ty_ok ex_hash_ty.
 Proof.
   cbn. unfold small. cbn. repeat split; try lia; repeat constructor; cbn; intuition (try lia; try discriminate).
+Qed.
+
+(* ---------- smart pointers at top level of a stream WITHOUT limit (the guard is "a byte is readable", not
+   BytesUntilLimit() > 0, which is -1 there) ---------- *)
+Lemma roundtrip_unlimited_scalar_ptr : forall nd sh k z, in_range k z ->
+  parse nd true (TPtr sh (TS k)) (encode (TPtr sh (TS k)) (VSome (VInt z))) = Ok (VSome (VInt z)) (mkS [] None).
+Proof.
+  intros nd sh k z H. unfold parse. cbn [decode encode dflt]. rewrite ptr_guard_eq.
+  pose proof (sk_encode_nonempty k z) as Hne. unfold has_data. cbn [win].
+  destruct (sk_encode k z) as [|b r] eqn:E; [contradiction|]. rewrite <- E.
+  rewrite <- (app_nil_r (sk_encode k z)). rewrite dec_scalar_rt by exact H. reflexivity.
+Qed.
+Lemma roundtrip_unlimited_string_ptr : forall nd sh b, b <> [] ->
+  parse nd true (TPtr sh TStr) (encode (TPtr sh TStr) (VSome (VStr b))) = Ok (VSome (VStr b)) (mkS [] None).
+Proof.
+  intros nd sh b H. unfold parse. cbn [decode encode dflt]. rewrite ptr_guard_eq.
+  destruct b; [contradiction|]. reflexivity.
 Qed.
